@@ -6,6 +6,7 @@ from .. import pk, gen, cmp, corpus
 from . import c01
 
 ID = 'C13'
+HORIZON_S = 1800   # one case = one input under all its transformations
 LEVEL = 'exploration'
 LEVEL_TEXT = ('For every multi-chain input of the corpus (record streams with chain changes with/without TER, blank chain ids '
               'and re-used ids; docked pairs and clusters with a burial chain; multi-chain cut-outs; whole multi-chain files '
